@@ -44,11 +44,11 @@ def dcc_code(v):
 class Rig:
     """a c10_impl Device with per-datagram observation"""
 
-    def __init__(self, Device):
+    def __init__(self, Device=None, dev=None):
         from bacpypes.apdu import (ConfirmedRequestPDU, SimpleAckPDU, ComplexAckPDU, ErrorPDU, RejectPDU,
                                    AbortPDU, RejectReason, AbortReason)
         from bacpypes.errors import RejectException, AbortException
-        self.dev = dev = Device()
+        self.dev = dev = dev if dev is not None else Device()
         self.cur = None          # index of the datagram being processed
         self.n = 0
         self.sent = []           # (cur, dst hex|None, octets)
@@ -166,7 +166,7 @@ class Rig:
         e0 = len(vt.errors)
         base = dev.snapshot()
         for (src, f, bc) in norm(frames):
-            dev.peers[src].send(f, None if bc else C.DEVICE)
+            dev.peers[src].send(f, None if bc else dev.address)
         ok1 = vt.run(until=vt.now + 0.001, max_loops=20000)
         per = []
         for i in range(len(frames)):
@@ -532,6 +532,394 @@ def histories(ctx, rng, T, n):
         yield [one(rng.choice([1, 2, 3])) for _ in range(k)], "history/%d" % k
 
 
+# ------------------------------------------------------------------ timed scripts, several devices in one process
+
+class World:
+    """1..3 complete device stacks in ONE process (one scheduler), on one LAN or each on its own, every one
+    instrumented; runs a SCRIPT of events
+        (seconds since the previous event, sending station, octets, link broadcast?, device index)
+    or ("rearm",) — the application suspends and re-installs its own long-lived timers.
+    With `housekeeping` the first device's application owns a recurring task (5 min) and a housekeeping
+    FunctionTask (10 min), installed BEFORE anything arrives (they sit in the scheduler's heap in front of the
+    transaction timers)."""
+
+    def __init__(self, Device, ndev=1, own_lans=False, housekeeping=False):
+        first = Device()
+        self.devs = [first] + [Device(beside=first, address=C.DEVICE + k, own_lan=own_lans) for k in range(1, ndev)]
+        self.rigs = [Rig(dev=d) for d in self.devs]
+        self.vt = first.vt
+        self.app_tasks = []
+        if housekeeping:
+            # 1: a recurring task (5 min); 2: + a housekeeping FunctionTask (10 min); 3: + a second one (7 min)
+            from bacpypes.task import RecurringTask, FunctionTask
+
+            class Recurring(RecurringTask):
+                def process_task(self_inner):
+                    pass
+            r = Recurring(300 * 1000)
+            r.install_task()
+            self.app_tasks = [(r, None)]
+            for lvl, delta in ((2, 600), (3, 420)):
+                if int(housekeeping) >= lvl:
+                    h = FunctionTask(lambda: None)
+                    h.install_task(delta=delta)
+                    self.app_tasks.append((h, delta))
+
+    def rearm(self):
+        for (t, _d) in self.app_tasks:
+            t.suspend_task()
+        for (t, d) in self.app_tasks:
+            if d is None:
+                t.install_task()
+            else:
+                t.install_task(delta=d)
+
+    def leftover(self, base):
+        """tasks scheduled now, not at the baseline, that NO device of the process may legitimately hold"""
+        per = [d.leftover(base) for d in self.devs]
+        allt = per[0][0]
+        bad = [x for x in per[0][1] if all(x in p[1] for p in per)]
+        return allt, bad
+
+    def run(self, script):
+        vt = self.vt
+        rigs = self.rigs
+        for r in rigs:
+            r.n = 0
+            r.cur = None
+            del r.sent[:]
+            del r.entries[:]
+        e0 = len(vt.errors)
+        base = set(id(t) for (_w, t) in vt.pending())
+        steps = [[] for _ in rigs]              # per device: what happened, in order
+        t = vt.now
+        ok = True
+        open_group = False
+
+        def close_group():
+            nonlocal ok
+            ok = vt.run(until=t + 0.001, max_loops=200000) and ok
+            for k, r in enumerate(rigs):
+                for st in steps[k]:
+                    if st["kind"] == "recv" and "out" not in st:
+                        i = st["n"]
+                        st["out"] = [[d, mask(o)] for (c, d, o) in r.sent if c == i and not is_unconf(o)]
+                        st["entries"] = [e for (c, e) in r.entries if c == i]
+                if steps[k]:
+                    steps[k][-1]["sv"] = r.digest()
+                    steps[k][-1]["dcc"] = dcc_code(r.dev.smap.dccEnableDisable)
+
+        counts = [0 for _ in rigs]
+        for ev in script:
+            if ev[0] == "rearm":
+                if open_group:
+                    close_group()
+                    open_group = False
+                self.rearm()
+                continue
+            delay, src, octets, bc, k = ev
+            if delay > 0:
+                if open_group:
+                    close_group()
+                    open_group = False
+                marks = [len(r.sent) for r in rigs]
+                t = t + delay
+                ok = vt.run(until=t, max_loops=200000) and ok
+                for j, r in enumerate(rigs):
+                    steps[j].append({"kind": "adv", "us": int(round(delay * 1000000)),
+                                     "out": [[d, mask(o)] for (c, d, o) in r.sent[marks[j]:] if c is None and not is_unconf(o)]})
+            targets = range(len(rigs)) if bc else [k]
+            rigs[k].dev.peers[src].send(octets, None if bc else rigs[k].dev.address)
+            for j in targets:
+                if bc and rigs[j].dev.lan is not rigs[k].dev.lan:
+                    continue
+                steps[j].append({"kind": "recv", "n": counts[j], "src": src, "hex": octets.hex(), "bc": bool(bc)})
+                counts[j] += 1
+            open_group = True
+        if open_group:
+            close_group()
+        marks = [len(r.sent) for r in rigs]
+        ok = vt.run(until=vt.now + max(d.bound() for d in self.devs), max_loops=200000) and ok
+        ltasks, bad = self.leftover(base)
+        for (tk, _d) in self.app_tasks:
+            tk.suspend_task()
+        # (a recurring task that cannot be cancelled would keep the scheduler busy for ever)
+        ok = vt.run(max_loops=5000) and ok
+        recs = []
+        for j, r in enumerate(rigs):
+            d = r.dev
+            recs.append({"steps": steps[j],
+                         "fin": {"out": [[dd, mask(o)] for (c, dd, o) in r.sent[marks[j]:] if not is_unconf(o)],
+                                 "sv": r.digest(), "cl": len(d.smap.clientTransactions), "net": r.netdigest()},
+                         "residue": d.residue(), "delivered": r.n, "expected": counts[j],
+                         "dcc": dcc_code(d.smap.dccEnableDisable),
+                         "description": bytes(d.file._data).decode("latin-1"),
+                         "sent": [[dd, mask(o)] for (c, dd, o) in r.sent if not is_unconf(o)]})
+        return {"devices": recs, "terminated": ok, "errors": [list(e) for e in vt.errors[e0:][:3]],
+                "late_tasks": ltasks, "unexpected_tasks": bad}
+
+
+def script_ops(rec_dev):
+    ops = []
+    for st in rec_dev["steps"]:
+        if st["kind"] == "adv":
+            ops.append({"op": "advance", "us": st["us"]})
+        else:
+            ans = [dict(e) for e in st["entries"] if e["k"] not in ("silent", "other")]
+            for a in ans:
+                a.pop("own", None)
+            ops.append({"op": "recv", "src": "%02x" % st["src"], "bc": st["bc"], "hex": st["hex"], "app": ans})
+    ops.append({"op": "quiesce"})
+    return ops
+
+
+def upload(text, inv, seg_size, win, svc=7):
+    """segments (NPCI in front) of an AtomicWriteFile(file 1, stream access, position 0, data := text)"""
+    body = wp_body(text)
+    parts = [body[i:i + seg_size] for i in range(0, len(body), seg_size)]
+    out = []
+    for i, part in enumerate(parts):
+        b0 = 8 | (4 if i < len(parts) - 1 else 0) | 2
+        out.append(b"\x01\x04" + bytes([b0, 0x05, inv, i % 256, win, svc]) + part)
+    return out
+
+
+_WP = {}
+
+
+def wp_body(text):
+    if text not in _WP:
+        from bacpypes.apdu import (AtomicWriteFileRequest, AtomicWriteFileRequestAccessMethodChoice,
+                                   AtomicWriteFileRequestAccessMethodChoiceStreamAccess, ConfirmedRequestPDU)
+        from bacpypes.primitivedata import OctetString
+        awf = AtomicWriteFileRequest(fileIdentifier=("file", 1), accessMethod=AtomicWriteFileRequestAccessMethodChoice(
+            streamAccess=AtomicWriteFileRequestAccessMethodChoiceStreamAccess(
+                fileStartPosition=0, fileData=OctetString(text.encode("ascii")))))
+        x = ConfirmedRequestPDU()
+        awf.encode(x)
+        _WP[text] = bytes(x.pduData)
+    return _WP[text]
+
+
+def expected_acks(nseg, win):
+    """sequence numbers the receiver acknowledges for a fault-free upload of nseg segments whose sender proposes
+    window `win` (receiver's own limit 2): the first segment, every end of window (modulo 256), the last"""
+    w = min(win, 2)
+    acks = [0]
+    init = 0
+    for i in range(1, nseg):
+        if i == nseg - 1:
+            acks.append(i % 256)
+        elif i % 256 == (init + w) % 256:
+            acks.append(i % 256)
+            init = i % 256
+    return acks
+
+
+def scripts(ctx, rng, T, stream):
+    """-> (world config, script, label, expectations)"""
+    out = []
+    quick = ctx.quick
+    stray = lambda inv, st: (st, b"\x01\x04" + bytes([0x0e, 0x05, inv, 0, 2, 15]) + b"\x0c\x00\x80")
+    rp = T["rp"]
+    dcc_init = T["dcc"][:6] + bytes.fromhex("090a") + bytes.fromhex("1902")        # disable-initiation for 10 minutes
+    if stream == "slow":
+        # a valid segmented WriteProperty delivered SLOWLY while other stations send stray first segments, garbage and
+        # valid requests in between and the application owns (and re-arms) long-lived timers
+        text = "slow upload " * 6
+        combos = [(gap, win, size) for gap in (0, 1, 5, 15, 19) for win in (1, 2, 8) for size in (9, 30)]
+        if quick:
+            combos = [(15, 2, 30), (19, 1, 9), (5, 8, 30), (0, 2, 9), (1, 1, 30), (15, 8, 9)]
+        for (gap, win, size) in combos:
+            segs = upload(text, 60, size, win)
+            for variant in range(3):
+                hk = 1 + (len(out) % 3)
+                sc = []
+                if len(out) % 2:
+                    sc.append((0, 10, dcc_init, False, 0))           # the application's DCC duration timer (10 min)
+                sc.append((0,) + stray(61, 11) + (False, 0))        # a half-open transaction of another station
+                for i, sg in enumerate(segs):
+                    sc.append((gap if i else 1, 10, sg, False, 0))
+                    if variant == 1 and i % 3 == 1:
+                        sc.append((0, 12, rp[:4] + bytes([62 + i % 4]) + rp[5:], False, 0))
+                        sc.append((0, 11, bytes(rng.getrandbits(8) for _ in range(6)), False, 0))
+                    if variant == 2 and i % 2 == 1:
+                        sc.append(("rearm",))
+                        sc.append((0,) + stray(70 + i % 3, 12) + (False, 0))
+                out.append(({"ndev": 1, "housekeeping": hk}, sc, "slow/gap%d-w%d-s%d-v%d-hk%d" % (gap, win, size, variant, hk),
+                            {"upload": (0, 10, 60, text, len(segs), win, variant == 0 or True)}))
+    elif stream == "long":
+        # MORE than 256 segments: the sequence numbers wrap
+        for (nseg, win, fault) in ([(301, 2, None), (258, 1, None), (301, 1, "dup"), (258, 8, "late")] if quick else
+                                   [(257, 1, None), (257, 2, None), (258, 1, None), (301, 2, None), (301, 1, None), (513, 2, None), (513, 8, None), (700, 1, None),
+                                    (301, 2, "dup"), (301, 1, "dup"), (513, 2, "late"), (301, 8, "late"), (300, 2, "dup0")]):
+            text = "".join(chr(97 + (i * 7) % 26) for i in range(nseg * 30 - 40))
+            segs = upload(text, 63, 30, win)
+            order = list(range(len(segs)))
+            if fault == "dup":
+                order = order[:256] + [255] + order[256:]            # a duplicate of 255 after it, around the wrap
+            elif fault == "dup0":
+                order = order[:257] + [256] + order[257:]            # a duplicate of the segment numbered 0 again
+            elif fault == "late":
+                order = order[:255] + [256, 255, 256] + order[257:]  # 256 overtakes 255, then both in order
+            sc = [(0 if i else 0, 10, segs[j], False, 0) for i, j in enumerate(order)]
+            # paced: one second every 40 segments, never near the receiver's 4 x T_seg
+            sc = [((1 if (i and i % 40 == 0) else 0),) + e[1:] for i, e in enumerate(sc)]
+            out.append(({"ndev": 1}, sc, "long/%d-w%d-%s" % (len(segs), win, fault or "clean"),
+                        {"upload": (0, 10, 63, text, len(segs), win, fault is None)}))
+    elif stream == "two":
+        # TWO / THREE devices in one process: colliding invoke ids, an upload to one while requests go to the other
+        text = "two devices " * 5
+        for (ndev, own) in ((2, False), (3, False), (2, True)):
+            segs = upload(text, 64, 12, 2)
+            for variant in range(4):
+                sc = []
+                other = 1
+                for i, sg in enumerate(segs):
+                    sc.append((1 if i else 0, 10, sg, False, 0))
+                    if variant in (0, 2) and i == 1:
+                        sc.append((0, 10, rp[:4] + bytes([64]) + rp[5:], False, other))      # same station, SAME invoke id, other device
+                    if variant in (1, 2) and i == 2:
+                        sc.append((0, 11, rp[:4] + bytes([64]) + rp[5:], False, other))
+                        sc.append((0, 11, rp[:4] + bytes([64]) + rp[5:], False, 0))
+                    if variant == 3 and i == 1:
+                        sc.append((0,) + stray(65, 10) + (False, other))                       # half-open in B ...
+                        sc.append((0, 10, rp[:4] + bytes([65]) + rp[5:], False, 0))            # ... same id asked of A
+                        sc.append((0, 10, T["whois"], True, 0))
+                    if ndev == 3 and i == 3:
+                        sc.append((0, 12, T["rpm"][:4] + bytes([64]) + T["rpm"][5:], False, 2))
+                out.append(({"ndev": ndev, "own_lans": own}, sc, "two/%d%s-v%d" % (ndev, "lans" if own else "", variant),
+                            {"upload": (0, 10, 64, text, len(segs), 2, True)}))
+        # the same stray first segment to one device, a valid request with that id to the other, both orders
+        for a, b in ((0, 1), (1, 0)):
+            sc = [(0,) + stray(66, 10) + (False, a), (0, 10, rp[:4] + bytes([66]) + rp[5:], False, b),
+                  (1, 10, rp[:4] + bytes([66]) + rp[5:], False, b), (0, 11, rp[:4] + bytes([66]) + rp[5:], False, a)]
+            out.append(({"ndev": 2}, sc, "two/stray-%d%d" % (a, b), {}))
+    return out
+
+
+def script_shard(ctx, spec):
+    stream, names = spec[0], spec[1]
+    model_ok = spec[2] if len(spec) > 2 else True
+    Device = C.build()
+    T = C.templates()
+    rng = ctx.sub_rng("c10/%s" % stream)
+    allsc = scripts(ctx, rng, T, stream)
+    k, n = int(names[0]), int(names[1])
+    for (wcfg, sc, label, expect) in allsc[k::n]:
+        run_script(ctx, Device, stream, wcfg, sc, label, expect, model_ok)
+
+
+def run_script(ctx, Device, stream, wcfg, sc, label, expect, model_ok):
+    world = World(Device, wcfg.get("ndev", 1), wcfg.get("own_lans", False), wcfg.get("housekeeping", False))
+    rec = world.run(sc)
+    case = {"stream": "model/" + stream, "template": label, "world": wcfg,
+            "script": [list(e[:2]) + [e[2].hex()] + list(e[3:]) if e[0] != "rearm" else ["rearm"] for e in sc],
+            "expect": {k: list(v) for k, v in expect.items()}}
+    # ---- the property on the real devices
+    if not rec["terminated"]:
+        ctx.fail("nontermination", case, "still busy after the loop limit")
+    if rec["unexpected_tasks"]:
+        ctx.fail("residue-timer", case, "still scheduled when every transaction must be over: %r" % (rec["unexpected_tasks"],),
+                 errors=rec["errors"])
+    for j, rd in enumerate(rec["devices"]):
+        if rd["residue"]["client"] or rd["residue"]["server"] or rd["residue"]["ssm_timers"]:
+            ctx.fail("residue-transaction", case, "device %d: leftover after quiescence: %r" % (j, rd["residue"]), errors=rec["errors"])
+    events = [e for e in sc if e[0] != "rearm"]
+    # every well-framed request gets exactly one reply FROM THE DEVICE IT WAS SENT TO, to its sender
+    for j, rd in enumerate(rec["devices"]):
+        owed = collections.Counter()
+        for (delay, src, octets, bc, k) in events:
+            kind, inv = C.classify(octets)
+            if kind == "confirmed" and k == j and not bc:
+                owed[(src, inv)] += 1
+        got = collections.Counter()
+        for (dst, o) in rd["sent"]:
+            h = C.decode_apdu_header(bytes.fromhex(o))
+            if h and h.get("type") in (2, 3, 5, 6) and not (h.get("seg") and h.get("seq")) and dst is not None:
+                # (aborts are not counted: a stray first segment is legitimately never answered)
+                got[(int(dst, 16), h.get("invoke"))] += 1
+        up = expect.get("upload")
+        if up and up[0] == j:
+            owed[(up[1], up[2])] += 1
+        if dict(owed) != dict(got):
+            ctx.fail("wrong-replies", case, "device %d owes (station, invoke): count %r and gave %r" % (
+                j, sorted(owed.items()), sorted(got.items())), errors=rec["errors"])
+    up = expect.get("upload")
+    if up:
+        j, station, inv, text, nseg, win, clean = up
+        rd = rec["devices"][j]
+        asked = [e for st in rd["steps"] if st["kind"] == "recv" for e in st["entries"] if not e.get("own")]
+        mine = [st for st in rd["steps"] if st["kind"] == "recv" and st["src"] == station and
+                (C.classify(bytes.fromhex(st["hex"])) == ("segment", inv))]
+        execd = [e for st in mine for e in st["entries"]]
+        written = rd["description"].startswith(text)
+        if len(execd) != 1 or execd[0].get("k") != "complex" or not written:
+            ctx.fail("upload", case, "the %d-segment AtomicWriteFile was executed %d time(s) %r; file %s" % (
+                nseg, len(execd), [dict(e, hex=e.get("hex", "")[:16]) for e in execd[:2]], "written" if written else "NOT written"),
+                errors=rec["errors"])
+        if clean:
+            acks = []
+            for (dst, o) in rd["sent"]:
+                h = C.decode_apdu_header(bytes.fromhex(o))
+                if h and h.get("type") == 4 and h.get("invoke") == inv and dst == "%02x" % station:
+                    acks.append((h.get("seq"), bool(h.get("nak")), bool(h.get("srv"))))
+            want = [(q, False, True) for q in expected_acks(nseg, win)]
+            if acks != want:
+                d = next((i for i, (a, b) in enumerate(zip(acks, want)) if a != b), min(len(acks), len(want)))
+                ctx.fail("segment-acks", case, "the %d-segment upload (window %d) was acknowledged %d times instead of %d; first difference at ack %d: %r / %r" % (
+                    nseg, win, len(acks), len(want), d, acks[d:d + 2], want[d:d + 2]), errors=rec["errors"])
+    ctx.count("model/" + stream, (label.split("-")[0], len(sc) // 50))
+    if not model_ok:
+        return
+    # ---- lockstep: one model per device (they share nothing)
+    drv = core.Driver("drv_c10")
+    for j, (rig, rd) in enumerate(zip(world.rigs, rec["devices"])):
+        if rd["delivered"] != rd["expected"]:
+            ctx.count("model/skipped", "undelivered")
+            continue
+        ops = [{"op": "reset", "cfg": rig.cfg()}] + script_ops(rd)
+        mrep = drv.ask(ops)[1:]
+        for r in mrep:
+            if r.get("r") != "ok":
+                raise core.Infra("model driver: %r" % (r,))
+        iv, mv = [], []
+        for st, m in zip(rd["steps"], mrep):
+            a = {"out": st["out"]}
+            b = {"out": m["out"]}
+            if st["kind"] == "recv":
+                ents = st["entries"]
+                e = ents[0] if ents else None
+                if e is None:
+                    a["asked"] = 0
+                elif e["k"] in ("silent", "other"):
+                    a["asked"] = "application silent"
+                elif e.get("own"):
+                    a["asked"] = m["asked"] if (e["k"] == "reject" and e.get("r") == 0) else 0
+                else:
+                    a["asked"] = 1
+                b["asked"] = m["asked"]
+            if "sv" in st:
+                a["sv"], b["sv"] = st["sv"], m["sv"]
+            iv.append(a)
+            mv.append(b)
+            ctx.count("model/" + stream + "-steps", (st["kind"], m.get("br")))
+        q = mrep[-1]
+        iv.append({"q": sorted(rd["fin"]["out"], key=by_invoke), "sv": rd["fin"]["sv"]})
+        mv.append({"q": sorted(q["out"], key=by_invoke), "sv": q["sv"]})
+        if core.canon(iv) != core.canon(mv):
+            kx = next((i for i, (a, b) in enumerate(zip(iv, mv)) if core.canon(a) != core.canon(b)), None)
+            ctx.disagree("model/" + stream, dict(case, device=j), {"at": kx, "impl": iv[kx], "errors": rec["errors"]},
+                         {"at": kx, "model": mv[kx]})
+
+
+def replay_script(ctx, case):
+    sc = [tuple(e[:2]) + (bytes.fromhex(e[2]),) + tuple(e[3:]) if e[0] != "rearm" else ("rearm",) for e in case["script"]]
+    expect = {k: tuple(v) for k, v in (case.get("expect") or {}).items()}
+    run_script(ctx, C.build(), case["stream"][6:], case.get("world") or {}, sc, case.get("template") or "replay", expect,
+               bool(getattr(ctx, "model_ok", False)))
+
+
 # ------------------------------------------------------------------ one shard
 
 def shard(ctx, spec):
@@ -849,6 +1237,10 @@ def specs(ctx):
 def run(ctx):
     """with the model driver: lockstep + oracles; without it (broken build): the oracles alone"""
     core.run_shards(ctx, "harness.c10_model", "shard", specs(ctx))
+    ok = bool(getattr(ctx, "model_ok", False))
+    sp = [("slow", [str(k), "4"], ok) for k in range(4)] + [("long", [str(k), "4"], ok) for k in range(4)]
+    sp += [("two", [str(k), "4"], ok) for k in range(4)]
+    core.run_shards(ctx, "harness.c10_model", "script_shard", sp)
 
 
 def unhex(frames):
